@@ -53,6 +53,9 @@ type c12Params struct {
 	// BigFiles: inputs of 17-40 KiB (anything done per file in parallel for
 	// large files only).
 	BigFiles bool `json:"big_files,omitempty"`
+	// Missing is the number of data shards removed before reconstruction in
+	// coder mode (default 2); the coder gets Missing+2 parity shards.
+	Missing int `json:"missing,omitempty"`
 }
 
 func init() {
@@ -118,6 +121,16 @@ func (c *c12) Cases(tier string, seed int64) []core.Case {
 	// many short data shards (a different way to divide the work may apply there)
 	for _, pr := range []int{2, 4, 16} {
 		cs = append(cs, core.MkCase(fmt.Sprintf("coder-many-shards-procs%d", pr), c12Params{Mode: "coder", D: 130 + 17*pr, Lens: []int{2, 6, 16, 18, 30, 34, 48, 62, 100, 130}, Workers: []int{2, 3, 8, 16, 64}, Procs: pr, Seed: r.Int63(), Repeats: map[string]int{"quick": 6, "thorough": 80}[tier]}))
+	}
+	// dozens of shards missing at once (a large system to solve before the
+	// data is touched), plain and race build
+	for _, pr := range []int{2, 16} {
+		cs = append(cs, core.MkCase(fmt.Sprintf("coder-many-missing-procs%d", pr), c12Params{Mode: "coder", D: 100, Missing: 64 + pr/2, Lens: []int{16, 130}, Workers: []int{2, 8}, Procs: pr, Seed: r.Int63(), Repeats: map[string]int{"quick": 2, "thorough": 30}[tier]}))
+	}
+	{
+		cse := core.MkCase("race-coder-many-missing", c12Params{Mode: "coder", D: 100, Missing: 66, Lens: []int{16}, Workers: []int{2, 8}, Procs: 8, Seed: r.Int63(), Repeats: 1, RaceMode: true})
+		cse.Race = true
+		cs = append(cs, cse)
 	}
 	{
 		cse := core.MkCase("race-coder-many-shards", c12Params{Mode: "coder", D: 160, Lens: []int{2, 16, 18, 34, 62, 130}, Workers: []int{2, 8, 16, 64}, Procs: 8, Seed: r.Int63(), Repeats: 2, RaceMode: true})
@@ -488,6 +501,14 @@ func (c *c12) runCoder(r *core.R, p c12Params) {
 	if p.D > 0 {
 		d = p.D
 	}
+	missing := map[int]bool{0: true, 2 % d: true}
+	if p.Missing > 2 && p.Missing < d {
+		pc = p.Missing + 2
+		missing = map[int]bool{}
+		for _, i := range rng.Perm(d)[:p.Missing] {
+			missing[i] = true
+		}
+	}
 	for _, kind := range []string{"vandermonde", "cauchy"} {
 		for _, l := range p.Lens {
 			data := randShards(rng, d, l)
@@ -528,7 +549,7 @@ func (c *c12) runCoder(r *core.R, p c12Params) {
 					// Reconstruct two missing shards.
 					in := make([][]byte, d)
 					for i := range in {
-						if i != 0 && i != 2%d {
+						if !missing[i] {
 							in[i] = append([]byte(nil), data[i]...)
 						}
 					}
@@ -536,7 +557,7 @@ func (c *c12) runCoder(r *core.R, p c12Params) {
 					c12rec.begin(uint64(p.Seed) ^ uint64(l)<<21 ^ uint64(g)<<9 ^ uint64(rep) ^ 1)
 					core.Note("C12 ReconstructData %s len=%d g=%d procs=%d", kind, l, g, p.Procs)
 					var rerr error
-					if pi := core.Protect(func() { rerr = coder.ReconstructData(in, [][]byte{refParity[0], refParity[1]}) }); pi != nil {
+					if pi := core.Protect(func() { rerr = coder.ReconstructData(in, append([][]byte(nil), refParity...)) }); pi != nil {
 						r.Violate("reconstruct-panic|"+pi.Frame, "%s len=%d g=%d: %s", kind, l, g, pi.Msg)
 						continue
 					}
